@@ -107,7 +107,8 @@ class RunContext(object):
                 continue
             if ent["property"] != self.spec.PROPERTY:
                 continue
-            if ent["invariant"] != invariant:
+            invs = ent.get("invariants") or [ent["invariant"]]
+            if invariant not in invs:
                 continue
             pred = self.spec.KNOWN_PREDICATES[ent["match"]]
             ok = False
@@ -183,7 +184,23 @@ def run_in_process(spec, cls, scenario, known, emit):
     except BaseException as e:
         tb = traceback.extract_tb(e.__traceback__)
         src = os.path.realpath(spec.SRC_DIR)
-        if tb and os.path.realpath(tb[-1].filename).startswith(src) and \
+        here = os.path.dirname(os.path.dirname(os.path.realpath(__file__)))
+        # innermost frame that belongs either to the library under test or
+        # to the harness (frames of the standard library / six in between
+        # are skipped): whose code was running when it went wrong?
+        inner = None
+        for fr in reversed(tb):
+            if not os.path.isabs(fr.filename):
+                continue            # "<string>", "<frozen ...>"
+            fn = os.path.realpath(fr.filename)
+            if fn.startswith(src):
+                inner = "library"
+                tb = tb[:tb.index(fr) + 1]
+                break
+            if fn.startswith(here):
+                inner = "harness"
+                break
+        if inner == "library" and \
                 not isinstance(e, kernel.SimBaseException):
             # the library raised inside a call the harness expected to
             # succeed on any tree where the property holds: that is a
